@@ -27,7 +27,7 @@ func init() {
 	register(&Rule{ID: "C17.volkey", Floor: 4, Also: []string{"C11"},
 		Text: "every index of the volumes map of MemFS uses a volume name: the result of VolumeName(...) / PathIterator.VolumeName(), or the DefaultVolume constant — never a caller's raw path",
 		Run:  c17VolKey})
-	register(&Rule{ID: "C17.errcmp", Floor: 20,
+	register(&Rule{ID: "C17.errcmp", Floor: 20, Also: []string{"C16"}, AlsoOnly: map[string][]string{"C16": {").Stat ", ").OpenFile ", ").Chmod "}}, AlsoFloor: map[string]int{"C16": 1},
 		Text: "MemFS and OrefaFS classify errors through their per-OS error table (vfs.err.X): no error value is compared with a constant of one OS family (avfs.LinuxError / avfs.WindowsError)",
 		Run:  c17ErrCmp})
 }
